@@ -250,7 +250,7 @@ func (e *Engine) Consistent(v VPath, A Assign, sub map[string]*Term, depth int) 
 		}
 		// expansion of call outcomes
 		if x := NilCheckOf(atom); x != nil && f.Pol {
-			if ct, call := CallOf(x); ct != nil && ct.Op == "call" {
+			if ct, call := CallOf(x); ct != nil && (ct.Op == "call" || ct.Op == "dyncall") {
 				if !e.calleeCan(ct, call, WantSuccess, A, depth-1) {
 					return false
 				}
@@ -281,8 +281,78 @@ func (e *Engine) Consistent(v VPath, A Assign, sub map[string]*Term, depth int) 
 
 func (e *Engine) calleeCan(ct *Term, call *ssa.Call, want Want, A Assign, depth int) bool {
 	g := StaticCallee(call)
+	if g == nil {
+		// a function taken from a package-level table (map literal of functions): the call can have the outcome
+		// if one of the entries can
+		if cands := tableCallees(ct); len(cands) > 0 {
+			for _, c := range cands {
+				if e.funcCan(c, ct, 1, want, A, depth) {
+					return true
+				}
+			}
+			return false
+		}
+		return true
+	}
+	return e.funcCan(g, ct, 0, want, A, depth)
+}
+
+// tableCallees resolves dyncall(table[key], ...) with table a package-level map variable initialised by a map
+// literal of functions: all the functions of the literal.
+func tableCallees(ct *Term) []*ssa.Function {
+	if ct == nil || ct.Op != "dyncall" || len(ct.Args) == 0 {
+		return nil
+	}
+	ft := ct.Args[0]
+	if ft.Op == "extract" {
+		ft = ft.Args[0]
+	}
+	if ft.Op != "lookup" || ft.Args[0].Op != "load" || ft.Args[0].Args[0].Op != "global" {
+		return nil
+	}
+	gl, ok := ft.Args[0].Args[0].Val.(*ssa.Global)
+	if !ok {
+		return nil
+	}
+	init := gl.Pkg.Func("init")
+	if init == nil {
+		return nil
+	}
+	var m ssa.Value
+	for _, b := range init.Blocks {
+		for _, in := range b.Instrs {
+			if st, ok := in.(*ssa.Store); ok && st.Addr == ssa.Value(gl) {
+				m = st.Val
+			}
+		}
+	}
+	var out []*ssa.Function
+	for _, b := range init.Blocks {
+		for _, in := range b.Instrs {
+			if mu, ok := in.(*ssa.MapUpdate); ok && mu.Map == m {
+				v := mu.Value
+				if ctv, ok := v.(*ssa.ChangeType); ok {
+					v = ctv.X
+				}
+				f, ok := v.(*ssa.Function)
+				if !ok {
+					return nil // an entry that is not a plain function: unknown
+				}
+				out = append(out, f)
+			}
+		}
+	}
+	return out
+}
+
+// funcCan: g, called with the arguments of ct (skipping the first skip argument terms: the callee value of a
+// dyncall), has a path with the wanted outcome that is consistent with A.
+func (e *Engine) funcCan(g *ssa.Function, ct *Term, skip int, want Want, A Assign, depth int) bool {
 	if g == nil || len(g.Blocks) == 0 || !e.InModule(g) {
 		return true
+	}
+	if skip > 0 {
+		ct = &Term{Op: "call", Name: FuncName(g), Args: ct.Args[skip:], Val: ct.Val, Bind: ct.Bind}
 	}
 	if want != WantSuccess && boolIndex(g) < 0 {
 		return true
